@@ -395,6 +395,20 @@ def weight_is_len_of_same_client(ff: FuncFlow, w: ast.AST, loop: ast.For, client
         return False, f'weight is the constant {txt(e)}: clients are not weighted by their number of examples'
       if isinstance(e, ast.Call) and ff.ext(e.func) == 'builtins.len':
         return None, f'weight {txt(e)} is a len() of something else'
+      # a per-client lookup wrapped in a clamp / arithmetic: the weight is no longer the example count
+      if isinstance(e, (ast.Call, ast.BinOp)):
+        inner = [x for x in ast.walk(e) if isinstance(x, ast.Subscript) and isinstance(x.slice, ast.Name) and x.slice.id == idname]
+        if inner and all(weight_is_len_of_same_client(ff, x, loop, clients_param)[0] is True for x in inner):
+          return False, (f'weight {txt(e)[:50]} modifies the client\'s example count (e.g. a clamp to >= 1 gives a client without examples a '
+                         'non-zero weight)')
+      # paired with the generator's output by position (zip / enumerate over a list built from the clients): the generator need not
+      # yield clients in input order (the pmap backend sorts them by number of batches)
+      if isinstance(e, ast.Name):
+        ds_ = ff.defs_for(e)
+        if ds_ and all(d.kind == 'for' and d.node.ast is loop for d in ds_) and isinstance(loop.iter, ast.Call) and ff.ext(loop.iter.func) in (
+            'builtins.zip', 'builtins.enumerate'):
+          return False, (f'weight {e.id} is paired with the client outputs by position ({txt(loop.iter.func)}), not looked up under the yielded '
+                         'client id: backends may yield clients in a different order than they were passed in')
       return None, f'weight {txt(e)[:40]} is not a per-client lookup'
     key = e.slice
     if not (isinstance(key, ast.Name) and key.id == idname and all(
